@@ -266,7 +266,10 @@ func TestVerif_C02_h2goaway(t *testing.T) {
 			}
 		}
 		between := false
-		for _, p := range poss {
+		// the usual graceful shutdown is two GOAWAYs: "going away" (last-stream-id 2^31-1 or the
+		// newest stream) and later the real one; the error code of the first sticks
+		twoStep := nconn >= 2 && r.Intn(3) == 0
+		for ci, p := range poss {
 			ce := c02CEv{delay: r.Intn(2) == 0}
 			where := "pos:mid-response"
 			switch {
@@ -279,13 +282,17 @@ func TestVerif_C02_h2goaway(t *testing.T) {
 			if p > 0 && p < len(evs) {
 				between = true
 			}
-			if r.Intn(10) < 6 {
+			if (twoStep && ci < 2) || r.Intn(10) < 6 {
 				ce.ck = 'G'
 				lasts := []uint32{0, sid - 1, sid, sid, sid, sid + 1, sid + 2, 1<<31 - 1}
 				if sid >= 3 {
 					lasts = append(lasts, sid-2)
 				}
 				ce.last = verifh.Pick(r, lasts)
+				if twoStep && ci == 0 {
+					ce.last = verifh.Pick(r, []uint32{1<<31 - 1, 1<<31 - 1, sid, sid + 2})
+					buckets = append(buckets, "goaway:two-step-shutdown")
+				}
 				ce.code = verifh.Pick(r, []uint32{0, 0, 0, 2, 11})
 				if mergedCode == 0 {
 					mergedCode = ce.code
@@ -538,7 +545,7 @@ func TestVerif_C02_h2goaway(t *testing.T) {
 				}
 			}
 		}
-		for _, b := range []string{"goaway:aborts-stream", "pause-before-END_STREAM-frame", "no-pause-before-END_STREAM-frame"} {
+		for _, b := range []string{"goaway:aborts-stream", "goaway:two-step-shutdown", "goaway:earlier-error-code-sticks", "pause-before-END_STREAM-frame", "no-pause-before-END_STREAM-frame"} {
 			if need[b] == 0 {
 				t.Errorf("lane h2goaway never reached %q", b)
 			}
